@@ -18,6 +18,7 @@ use serde_json::{json, Value};
 use crate::ev::{self, Acc, Ctx, Finish, Violation};
 use crate::fmts::{self, Fmt, STREAMING};
 use crate::gen::{gen_collection, Classes, GenOpts};
+use crate::known;
 use crate::model::Val;
 use crate::rng::Rng;
 use crate::run::{guarded, run_slice, Verdict};
@@ -80,6 +81,9 @@ pub struct LagReport {
     /// live heap of the translating thread, sampled at the read() calls at which
     /// 1/10, 2/10, ... 9/10 of the stream's documents had been delivered
     pub live_deciles: Vec<isize>,
+    /// the largest number of input bytes that had been delivered beyond the last document whose
+    /// translation was completely written, seen at any read() call
+    pub max_backlog_bytes: u64,
 }
 
 /// Generates the stream lazily from a pool and checks the lag invariant at
@@ -107,6 +111,11 @@ struct PacketReader<'a> {
     /// pool[..n_random] are drawn at random; pool[n_random], if present, opens the stream
     n_random: usize,
     head_pending: bool,
+    /// fully delivered documents whose translation is not yet completely written:
+    /// (input end offset, cumulative output length through this document)
+    unwritten: VecDeque<(u64, u64)>,
+    out_cum: u64,
+    written_through_input: u64,
 }
 
 impl<'a> PacketReader<'a> {
@@ -166,6 +175,15 @@ impl<'a> PacketReader<'a> {
             if lag > rep.max_lag_docs {
                 rep.max_lag_docs = lag;
             }
+            while let Some((in_end, out_end)) = self.unwritten.front().copied() {
+                if written >= out_end {
+                    self.written_through_input = in_end;
+                    self.unwritten.pop_front();
+                } else {
+                    break;
+                }
+            }
+            rep.max_backlog_bytes = rep.max_backlog_bytes.max(self.delivered - self.written_through_input);
             if written < self.required && rep.violation.is_none() {
                 rep.violation = Some((self.docs_required.saturating_sub(1), self.delivered, written, self.required));
             }
@@ -228,6 +246,8 @@ impl<'a> PacketReader<'a> {
                 self.in_flight.pop_front();
                 self.docs_delivered += 1;
                 self.recent.push_back(out_len);
+                self.out_cum += out_len;
+                self.unwritten.push_back((end, self.out_cum));
                 // documents older than the two most recent fully delivered ones must be
                 // completely written by the next read call
                 while self.recent.len() > 2 {
@@ -352,7 +372,32 @@ fn make_pool(spec: &StreamSpec) -> Vec<(Vec<u8>, u64)> {
             pool = converted.into_iter().map(|c| c.unwrap()).collect();
         }
     }
+    // a whole YAML stream in UTF-16 or UTF-32 (no byte order mark; every document starts with an ASCII '-'):
+    // xt re-encodes such input on the way in, which must not cost the streaming behaviour
+    if let Some(enc) = stream_encoding(spec) {
+        for (b, _) in pool.iter_mut() {
+            let text = String::from_utf8_lossy(b).into_owned();
+            let mut o = Vec::with_capacity(b.len() * 4);
+            for c in text.chars() {
+                match enc {
+                    0 | 1 => {
+                        let mut u = [0u16; 2];
+                        for w in c.encode_utf16(&mut u) {
+                            o.extend_from_slice(&if enc == 0 { w.to_le_bytes() } else { w.to_be_bytes() });
+                        }
+                    }
+                    _ => o.extend_from_slice(&if enc == 2 { (c as u32).to_le_bytes() } else { (c as u32).to_be_bytes() }),
+                }
+            }
+            *b = o;
+        }
+    }
     pool
+}
+
+/// Some(0..=3) = the YAML stream is UTF-16LE / UTF-16BE / UTF-32LE / UTF-32BE; None = UTF-8.
+fn stream_encoding(spec: &StreamSpec) -> Option<u64> {
+    if spec.src == Fmt::Yaml && spec.pool_seed % 7 == 3 { Some((spec.pool_seed / 7) % 4) } else { None }
 }
 
 /// For YAML sources the stream may OPEN with a document in a style that other
@@ -360,7 +405,7 @@ fn make_pool(spec: &StreamSpec) -> Vec<(Vec<u8>, u64)> {
 /// JSON, a block mapping without a document start marker). Returns the bytes
 /// and the output length; chosen from the pool seed.
 fn head_doc(spec: &StreamSpec) -> Option<(Vec<u8>, u64)> {
-    if spec.src != Fmt::Yaml || matches!(spec.pool_seed % 5, 1 | 2) {
+    if spec.src != Fmt::Yaml || matches!(spec.pool_seed % 5, 1 | 2) || stream_encoding(spec).is_some() {
         return None;
     }
     let b: &[u8] = match spec.pool_seed % 4 {
@@ -432,6 +477,9 @@ pub fn run_stream(spec: &StreamSpec) -> Option<StreamResult> {
         total_docs: spec.n_docs as u64,
         n_random,
         head_pending: has_head,
+        unwritten: VecDeque::new(),
+        out_cum: prefix_len,
+        written_through_input: 0,
     };
     let writer = CountingWriter(clock.clone());
     let from = if spec.detect { None } else { Some(spec.src.xt()) };
@@ -499,12 +547,30 @@ pub fn judge(spec: &StreamSpec, acc: &mut Acc) {
     acc.max("max_peak_over_largest_doc_x100", if r.largest_doc > 4096 { (r.peak.max(0) as u64 * 100) / r.largest_doc as u64 } else { 0 });
     acc.count(&format!("streams_{}_{}", spec.src.name(), if spec.detect { "detected" } else { "explicit" }));
     acc.count(&format!("packets_{:?}", spec.packets));
+    if let Some(e) = stream_encoding(spec) {
+        acc.count("yaml_streams_in_utf16_or_utf32");
+        acc.count(&format!("yaml_stream_encoding_{}", ["utf16le", "utf16be", "utf32le", "utf32be"][e as usize]));
+    }
     let case = || spec.json();
     if !r.verdict.is_ok() || r.written != r.expected || !r.hash_ok {
         acc.violation(Violation { sig: format!("stream {}->{} not translated completely", spec.src.name(), spec.to.name()), case: case(), observed: format!("{}; {} bytes written, {} expected, content hash {}", r.verdict.show(), r.written, r.expected, if r.hash_ok { "matches" } else { "differs" }), expected: "Ok and exactly the concatenated translations".into() });
         return;
     }
+    acc.max(&format!("max_backlog_bytes_{}", if stream_encoding(spec).is_some() { "yaml_utf16_utf32" } else { spec.src.name() }), r.lag.max_backlog_bytes);
     if let Some((k, delivered, written, required)) = r.lag.violation {
+        // recorded finding: a UTF-16 / UTF-32 YAML stream is re-encoded into the parser's 16 KiB input
+        // buffer, and the re-encoder fills that buffer completely before it returns - so up to 16 KiB of
+        // re-encoded text (32 KiB of UTF-16, 64 KiB of UTF-32) are gathered before anything is translated.
+        // The backlog stays below that constant; a backlog beyond it is not this finding.
+        if let Some(e) = stream_encoding(spec) {
+            let width: u64 = if e < 2 { 2 } else { 4 };
+            let allowed = 16384 * width + 8192 + 4 * r.largest_doc as u64 + 64;
+            if r.lag.max_backlog_bytes <= allowed && known::listed("C05", "C05-reencoded-yaml-stream-held-back-by-16k") {
+                acc.known("C05-reencoded-yaml-stream-held-back-by-16k", || format!("{} documents in {} ({:?}): at most {} input bytes delivered beyond the last translated document (constant bound {})", spec.n_docs, ["UTF-16LE", "UTF-16BE", "UTF-32LE", "UTF-32BE"][e as usize], spec.packets, r.lag.max_backlog_bytes, allowed));
+                acc.count("reencoded_streams_within_the_constant_backlog");
+                return;
+            }
+        }
         acc.violation(Violation { sig: format!("lag: {} {:?} {}", spec.src.name(), spec.packets, if spec.detect { "detected" } else { "explicit" }), case: case(), observed: format!("at a read() call the reader had already delivered {delivered} bytes (through document {}), but only {written} bytes were written; the translations of documents 0..={k} need {required}", k + 2), expected: "the complete translation of document k handed to the writer before data beyond document k+2 is requested".into() });
         return;
     }
@@ -577,9 +643,9 @@ pub fn run(ctx: &Ctx) -> i32 {
         acc.sample_every(37, || sp[i].json());
         judge(&sp[i], acc);
     });
-    let rule = format!("{} streams: sources JSON/MessagePack/YAML x targets JSON/MessagePack/YAML x 6 packetisations (one document per read, three per read, half a document, single bytes, 100 KB blocks, random) x explicit/detected x document size classes (tiny, ~1 KiB generated, ~50 KiB, ~300 KiB; YAML streams also open with a flow sequence, a flow mapping or an unmarked block mapping) x stream lengths up to {} documents, generated on the fly with O(1) harness memory; the lag invariant is evaluated at EVERY read() call; peak live heap measured with a counting allocator per call and compared with the same stream at a tenth of the length; live heap sampled at the deciles of every stream of >= 1000 documents (steady growth over the second half = a per-document leak); distinct non-trivial = distinct stream specifications", sp.len(), if ctx.thorough() { 300000 } else { 3000 });
+    let rule = format!("{} streams: sources JSON/MessagePack/YAML x targets JSON/MessagePack/YAML x 6 packetisations (one document per read, three per read, half a document, single bytes, 100 KB blocks, random) x explicit/detected x document size classes (tiny, ~1 KiB generated, ~50 KiB, ~300 KiB; YAML streams also open with a flow sequence, a flow mapping or an unmarked block mapping, use CR or CRLF line breaks throughout, or - one in seven - are UTF-16LE/BE or UTF-32LE/BE throughout) x stream lengths up to {} documents, generated on the fly with O(1) harness memory; the lag invariant is evaluated at EVERY read() call; peak live heap measured with a counting allocator per call and compared with the same stream at a tenth of the length; live heap sampled at the deciles of every stream of >= 1000 documents (steady growth over the second half = a per-document leak); distinct non-trivial = distinct stream specifications", sp.len(), if ctx.thorough() { 300000 } else { 3000 });
     ev::finish(
-        Finish { ctx, level: "exploration", rule, assumptions: vec!["memory bound constants: 2 MiB + 128 x largest document; growth slack 128 KiB (measured slack on the pinned tree: < 16 KiB, worst ratio 46 for dense YAML)".into(), "the harness's own allocations during a call are bounded by one packet plus a few queue entries".into()], extra: serde_json::Map::new(), exhaustive: false, min_distinct: 100, must_reach: vec![("read_calls_monitored".into(), 10000), ("length_pairs_compared".into(), 20), ("live_heap_decile_series_compared".into(), 20), ("streams_yaml_detected".into(), 5), ("streams_json_detected".into(), 5), ("streams_msgpack_detected".into(), 5)] },
+        Finish { ctx, level: "exploration", rule, assumptions: vec!["memory bound constants: 2 MiB + 128 x largest document; growth slack 128 KiB (measured slack on the pinned tree: < 16 KiB, worst ratio 46 for dense YAML)".into(), "the harness's own allocations during a call are bounded by one packet plus a few queue entries".into()], extra: serde_json::Map::new(), exhaustive: false, min_distinct: 100, must_reach: vec![("read_calls_monitored".into(), 10000), ("length_pairs_compared".into(), 20), ("live_heap_decile_series_compared".into(), 20), ("streams_yaml_detected".into(), 5), ("streams_json_detected".into(), 5), ("streams_msgpack_detected".into(), 5), ("yaml_streams_in_utf16_or_utf32".into(), 8)] },
         acc,
     )
 }
